@@ -9,6 +9,7 @@ import (
 	"os"
 
 	"verif/harness/adjdrv"
+	"verif/harness/ocidrv"
 )
 
 func fail(err error) {
@@ -46,6 +47,25 @@ func main() {
 		fs.Float64Var(&o.Density, "density", 0, "write density (0 = mixed)")
 		fs.Parse(args)
 		if err := adjdrv.Generate(o); err != nil {
+			fail(err)
+		}
+	case "oci":
+		fs := flag.NewFlagSet(mod, flag.ExitOnError)
+		in := fs.String("in", "", "scenario file")
+		out := fs.String("out", "", "trace file")
+		reps := fs.Int("reps", 16, "repetitions per pair")
+		fs.Int64("seed", 1, "unused")
+		fs.Parse(args)
+		if err := ocidrv.Run(*in, *out, *reps); err != nil {
+			fail(err)
+		}
+	case "oci-gen":
+		fs := flag.NewFlagSet(mod, flag.ExitOnError)
+		out := fs.String("out", "", "scenario file")
+		n := fs.Int("n", 1000, "number of pairs")
+		seed := fs.Int64("seed", 1, "seed")
+		fs.Parse(args)
+		if err := ocidrv.Generate(*out, *n, *seed); err != nil {
 			fail(err)
 		}
 	default:
